@@ -2,7 +2,7 @@
    computation over a table regenerated from /repo. *)
 From Coq Require Import List String ZArith.
 From Helm Require Import Values.Tree Values.Merge Values.Coalesce Values.Options
-                         Values.MergeProofs Values.CoalesceProofs Values.SubchartProofs
+                         Values.MergeProofs Values.CoalesceProofs Values.SubchartProofs Values.DepthProofs
                          Values.Strvals Values.StrvalsProofs Gen.ValueOrder.
 Import ListNotations.
 Local Open Scope string_scope.
@@ -148,3 +148,43 @@ Example C04_set_frame_nonvacuous :
      = POk [("a", VMap [("x.y", VStr "old"); ("keep", VNum 1%Z)]); ("b", VBool true); ("n", VMap [("k,1", VStr "a,b")])].
 Proof. exact ex_set_frame. Qed.
 Print Assumptions C04_set_frame_nonvacuous.
+
+(* Subcharts at ANY depth.  [ls] = the charts from the root down to the chart whose scope is
+   looked at (each a loaded dependency of the one before, dependency names unique, none named
+   "global", every values.yaml with unique keys); [scope_path ls] = the subchart names from the
+   root; k :: p' = a path inside the last chart's scope that does not start at "global" nor at
+   one of its own subcharts.  For CoalesceValues (merge = false) and MergeValues (true):
+   - a non-null leaf the user sets there wins;
+   - where the user's values say nothing about the path, [default_at ls (k :: p')] decides:
+     the first chart on the way down (root first) whose own values.yaml holds a non-null leaf
+     at the path inside its section for the chain, else the last chart's own defaults (the
+     whole subtree or absence).  ([default_at] is None — nothing claimed — when some chart on
+     the way holds a table, a null or a blocking scalar there.) *)
+Theorem C04_coalesce_depth_precedence :
+  forall (ls : list chart) (merge : bool) (c0 cn : chart) (dest r : vmap) (k : string) (p' : list string),
+  valid_levels ls -> hd_error ls = Some c0 -> last_level ls = Some cn ->
+  coalesce merge c0 dest = Some r ->
+  k <> global_key -> ~ In k (map cname (cdeps cn)) ->
+  let q := (scope_path ls ++ k :: p')%list in
+  (forall x, lookup_path q (VMap dest) = Some x -> is_table x = false -> x <> VNull ->
+             lookup_path q (VMap r) = Some x)
+  /\ (defines q (VMap dest) = false ->
+      match default_at ls (k :: p') with
+      | Some o => lookup_path q (VMap r) = o
+      | None => True
+      end).
+Proof. exact coalesce_depth. Qed.
+Print Assumptions C04_coalesce_depth_precedence.
+
+Example C04_coalesce_depth_nonvacuous :
+  valid_levels [ex_l0; ex_l1; ex_l2]
+  /\ exists r, coalesce false ex_l0 ex_uv = Some r
+     /\ lookup_path ["mid"; "leaf"; "u"] (VMap r) = Some (VStr "user")
+     /\ lookup_path ["mid"; "leaf"; "p"] (VMap r) = Some (VNum 2%Z)
+     /\ lookup_path ["mid"; "leaf"; "q"] (VMap r) = Some (VStr "mid-q")
+     /\ lookup_path ["mid"; "leaf"; "o"] (VMap r) = Some (VStr "own")
+     /\ default_at [ex_l0; ex_l1; ex_l2] ["p"] = Some (Some (VNum 2%Z))
+     /\ default_at [ex_l0; ex_l1; ex_l2] ["q"] = Some (Some (VStr "mid-q"))
+     /\ default_at [ex_l0; ex_l1; ex_l2] ["o"] = Some (Some (VStr "own")).
+Proof. exact ex_depth. Qed.
+Print Assumptions C04_coalesce_depth_nonvacuous.
